@@ -139,15 +139,15 @@ class ContractInstruction(MichelsonInstruction, prim='CONTRACT', args_len=1):
         entrypoint = next(iter(cls.field_names), 'default')
         address = cast(AddressType, stack.pop1())
         address.assert_type_in(AddressType)
-        entrypoint_type = get_entrypoint_type(context, entrypoint, address=str(address))
         contract_type = ContractType.create_type(args=cls.args)
         try:
+            entrypoint_type = get_entrypoint_type(context, entrypoint, address=str(address))
             if entrypoint_type is None:
                 stdout.append(f'{cls.prim}: skip type checking for {str(address)}')
             else:
                 entrypoint_type.assert_type_equal(cls.args[0])
             res = OptionType.from_some(contract_type.from_value(f'{str(address)}%{entrypoint}'))  # type: ignore
-        except AssertionError:
+        except (AssertionError, MichelsonRuntimeError):
             res = OptionType.none(contract_type)
         stack.push(res)
         stdout.append(format_stdout(cls.prim, [address], [res]))  # type: ignore
